@@ -15,6 +15,22 @@ theorem pool_get_shape (p : BsPool) (n : Int) (c : Option Nat) (h0 : 0 < n) (h1 
     ∃ s, (p.get n c).2 = some s ∧ s.len = n.toNat ∧ s.cap = 2 ^ BsPool.classOf n.toNat ∧ n.toNat ≤ s.cap :=
   Proofs.Pool.get_shape p n c h0 h1
 
+/-- `Get(n)` never hands out (and so never pins) a region of twice the requested size or more:
+    `n ≤ cap < 2n` -/
+theorem pool_get_tight (p : BsPool) (n : Int) (c : Option Nat) (h0 : 0 < n) (h1 : n ≤ 2147483647) :
+    ∃ s, (p.get n c).2 = some s ∧ n.toNat ≤ s.cap ∧ s.cap < 2 * n.toNat := by
+  obtain ⟨s, hs, _, hcap, hle⟩ := Proofs.Pool.get_shape p n c h0 h1
+  refine ⟨s, hs, hle, ?_⟩
+  obtain ⟨_, hmin⟩ := Proofs.Pool.classOf_spec n.toNat (by omega) (by omega)
+  rw [hcap]
+  generalize BsPool.classOf n.toNat = i at *
+  rcases Nat.eq_zero_or_pos i with h | hpos
+  · subst h; omega
+  · have hn : ¬ n.toNat ≤ 2 ^ (i - 1) := fun h => by have := hmin _ h; omega
+    have : 2 ^ i = 2 * 2 ^ (i - 1) := by
+      conv => lhs; rw [show i = (i - 1) + 1 by omega, Nat.pow_succ]
+      omega
+    omega
 theorem pool_get_nil (p : BsPool) (n : Int) (c : Option Nat) (h : n ≤ 0) : (p.get n c).2 = none :=
   Proofs.Pool.get_nil p n c h
 
